@@ -11,6 +11,21 @@ def my_repair(X, Xb, xl, xu):      # user-supplied operator: module-level functi
     return np.clip(X, xl, xu)
 
 
+class StatefulRepair:
+    """user-supplied repair operator that carries state: a callable object whose pull towards the base vector weakens with every call"""
+
+    def __init__(self):
+        self.calls = 0
+
+    def __call__(self, X, Xb, xl, xu):
+        self.calls += 1
+        w = 1.0 / (1.0 + self.calls)
+        XL = np.tile(xl, (len(X), 1)); XU = np.tile(xu, (len(X), 1))
+        X = np.where(X < XL, XL + w * (Xb - XL), X)
+        X = np.where(X > XU, XU - w * (XU - Xb), X)
+        return X
+
+
 class UserOps:
     def cross(self, n_matings, n_var, CR, at_least_once=True):      # user-supplied operator: bound method
         from pymoode.operators.dex import cross_binomial
@@ -24,7 +39,7 @@ class C18(Check):
     THOROUGH_N = 80
     CASE_TIMEOUT = 400
     RULE = ("for random configurations of DE / NSDE / GDE3 / GDE3MNN / NSDE-R (stateful reference-direction survival), F given or left at its default, some with a user-supplied "
-            "repair function and a bound-method crossover: the run is interrupted after EVERY generation k; the algorithm is checkpointed by copy.deepcopy, pickle and dill "
+            "repair (a plain function or a stateful callable object, passed through the constructor) and a bound-method crossover: the run is interrupted after EVERY generation k; the algorithm is checkpointed by copy.deepcopy, pickle and dill "
             "together with numpy.random.get_state(); each checkpoint is resumed (deepcopy/dill/pickle in this process after disturbing the generator, pickle also in a fresh "
             "interpreter) with the saved generator state and must reproduce every later generation of the uninterrupted run (fingerprints of X, F, G, optimum); "
             "minimize(save_history=True) must end in the same population as save_history=False; the uninterrupted run is also compared with the Coq model step by step; "
@@ -37,15 +52,20 @@ class C18(Check):
             cfg = hist.gen_hist_case(self.rng, algs=ALGS, n_gen=self.rng.choice([4, 5]))
             if self.rng.random() < 0.4 and cfg["alg"] != "DE":
                 cfg["F"] = None
-            cfg["user_ops"] = self.rng.random() < 0.3 and cfg["alg"] != "NSDER"
+            cfg["user_ops"] = (self.rng.choice(["plain", "stateful"]) if self.rng.random() < 0.4 and cfg["alg"] != "NSDER" else False)
             cfg["disturb"] = self.rng.randrange(10 ** 6)
             yield cfg
 
     def build(self, cfg):
-        prob = hist.make_problem(cfg); alg = hist.make_algorithm(cfg)
+        prob = hist.make_problem(cfg)
         if cfg.get("user_ops"):
-            alg.mating.de_mutation.de_repair = my_repair
+            # user-supplied operators: the repair goes through the constructor (a plain function or a stateful callable object),
+            # the crossover function is a bound method
+            cfgx = dict(cfg); cfgx["repair"] = StatefulRepair() if cfg.get("user_ops") == "stateful" else my_repair
+            alg = hist.make_algorithm(cfgx)
             alg.mating.crossover.cross_function = UserOps().cross
+        else:
+            alg = hist.make_algorithm(cfg)
         alg.setup(prob, seed=cfg["seed"], termination=("n_gen", cfg["n_gen"] + 1), verbose=False)
         return alg, prob
 
@@ -107,7 +127,7 @@ class C18(Check):
         return obs["n_cuts"] >= 3
 
     def classes(self, cfg, obs):
-        return [cfg["alg"], "F-default" if cfg["F"] is None else "F-given"] + (["user-operators"] if cfg.get("user_ops") else [])
+        return [cfg["alg"], "F-default" if cfg["F"] is None else "F-given"] + (["user-operators-%s" % cfg["user_ops"]] if cfg.get("user_ops") else [])
 
 
 if __name__ == "__main__":
